@@ -319,6 +319,9 @@ def _stmts(e, stmts, notes):
             t.target()
         elif s[0] == "sub":
             e.ebpf.subprograms[s[1]].program()
+        elif s[0] == "call":                               # a raw helper call by the user: r0 gets a value, r1-r5 are clobbered
+            from ebpfcat.ebpf import FuncId
+            e.ebpf.call(FuncId[s[1]])
         elif s[0] == "exit":
             e.ebpf.r0 = int(s[1])
             e.ebpf.exit()
@@ -767,6 +770,28 @@ def gen_unowned(rng):
                                    "stmts": [["set", d, e]]}, "expect": "refused"}
 
 
+RAW_CALLS = ["ktime_get_ns", "get_prandom_u32", "get_smp_processor_id"]
+
+
+def gen_call(rng):
+    """registers around a raw helper call `e.call(FuncId.x)`: the kernel clobbers r1-r5 and defines r0, so a read of r1-r5 after the
+    call (not re-assigned) must be refused by the generator, while r0 and r6-r9 stay readable"""
+    regs = [[k, rng.randrange(1, 9)] for k in sorted(rng.sample([1, 2, 3, 4, 5, 6, 8, 9], rng.randrange(3, 8)))]
+    have = [k for k, _ in regs]
+    k = rng.choice([0] + have + [rng.choice([1, 2, 3, 4, 5])] * 2 + [5])
+    before = [["set", ["v", "lvQ"], ["+", ["r", rng.choice(have)], ["c", 3]]]] if rng.random() < 0.5 else []
+    again = rng.random() < 0.3 and k in (1, 2, 3, 4, 5)
+    mid = [["set", ["r", k], ["c", 11]]] if again else []
+    e = rng.choice([["r", k], ["+", ["r", k], ["c", 1]], ["*", ["v", "lvI"], ["w", k]], ["neg", ["sr", k]]])
+    d = rng.choice([["v", "lvQ"], ["v", "lvI"], ["r", rng.choice([6, 8])]])
+    clobbered = k in (1, 2, 3, 4, 5) and not again or (k != 0 and k not in have and not again)
+    case = {"kind": "ext", "spec": {"vars": [["lvQ", "Q", "l"], ["lvI", "I", "l"]], "regs": regs, "subs": [],
+                                    "stmts": before + [["call", rng.choice(RAW_CALLS)]] + mid + [["set", d, e]]}}
+    if clobbered:
+        case["expect"] = "refused"
+    return case
+
+
 def build_redecl(spec):
     """C08's finding seen by the verifier: an array-map variable redeclared in a subclass of a subprogram class"""
     from ebpfcat import ebpf as E
@@ -1087,7 +1112,7 @@ def run(ctx):
         if it:
             items.append(it)
     for gen, cnt in ((gen_dsl, ctx.n(160, 3000)), (gen_pkt, ctx.n(120, 1500)), (gen_c09, ctx.n(8, 60)), (gen_ext, ctx.n(160, 3000)),
-                     (gen_unowned, ctx.n(12, 60)), (gen_tvar, ctx.n(16, 200))):
+                     (gen_unowned, ctx.n(12, 60)), (gen_tvar, ctx.n(16, 200)), (gen_call, ctx.n(40, 400))):
         for _ in range(cnt):
             it = check_base(ctx, gen(rng), have_kernel)
             if it:
